@@ -6,7 +6,7 @@
    are inputs.  XFuel is the model's budget for nested forward_message calls (Python's own
    limit is its recursion limit; see C03_fuel_note). *)
 From Coq Require Import ZArith List Bool.
-From Mgr Require Import Gen.MgrDefs Model.Manager Model.Encode Proofs.RegInv Proofs.Frame Proofs.RegTraverse Proofs.RegTop Proofs.Connect Proofs.StepInv Proofs.Fuel Proofs.FuelTop.
+From Mgr Require Import Gen.MgrDefs Model.Manager Model.Encode Proofs.RegInv Proofs.Frame Proofs.RegTraverse Proofs.RegTop Proofs.Connect Proofs.StepInv Proofs.Fuel Proofs.FuelTop Proofs.FuelLower.
 Import ListNotations.
 Open Scope Z_scope.
 
@@ -54,6 +54,21 @@ Example C03_total_ex :
   exn_code_of (run (mkConfig 60 true) 2%nat ex_cascade) <> 0 /\
   exn_code_of (run (mkConfig 60 true) 10%nat ex_cascade) = 0.
 Proof. vm_compute. repeat split; discriminate. Qed.
+
+(* ... and NO fixed budget is enough: for every B there is a finite history of legal client behaviour
+   (B+1 connections subscribe to CLIENT_CLOSED, all fail at the same instant, the first one hangs up) on which a
+   budget of B is exhausted.  This is the formal counterpart of the recorded finding crash:RecursionError:deep-cascade:
+   the implementation's budget (Python's recursion limit) is fixed, so "no client can take the manager down" is
+   refuted for it, while a budget linear in the number of connections suffices (C03_total).  cascade n needs
+   exactly n levels (C03_cascade_window: exhausts n-1, completes with 2(n+1)+2). *)
+Theorem C03_refuted_for_any_fixed_budget : forall B : nat,
+  exists es, match run (mkConfig 60 true) B es with Crash XFuel _ => True | _ => False end.
+Proof. exact no_fixed_budget. Qed.
+
+Theorem C03_cascade_window : forall n, (1 <= n)%nat ->
+  crashes_fuel (run kcfg (n - 1) (cascade n)) /\
+  forall F, (2 * (n + 1) + 2 <= F)%nat -> exists s, run kcfg F (cascade n) = Ok tt s.
+Proof. exact cascade_window. Qed.
 
 Theorem C03_rank_le_2 : forall h, (1 <= rank h <= 2)%nat.
 Proof. exact rank_le. Qed.
